@@ -442,3 +442,23 @@ CHECKS["C09"] = dict(
         dict(name="limit", test="TestLimitAndDrain", kind="rapid", checks={"quick": 40, "thorough": 2500}, shards=16, timeout={"quick": 900, "thorough": 3400}, shrinktime="60s", gomaxprocs=4, crash_is_violation=True),
     ],
 )
+
+CHECKS["C20"] = dict(
+    pkg="c20", level="exploration",
+    engine="sim / tcpsim; the statistics are read through the public stats package by name",
+    rule=("rapid-generated histories (2..20 steps) against a real Redis processor in front of 1..3 simulated masters, or a real TCP processor in "
+          "front of an echo backend, with connection limit 0..3: open / close / abort (RST) up to 5 client connections, pipelined command "
+          "batches (GET/SET/MGET/MSET/DEL/INCR/LPUSH with wrong-type errors, PING, the unsupported KEYS, an invalid arity), backend "
+          "connection drops (FIN/RST), a backend connection killed after 1..5 commands, slot migrations that force MOVED or ASK "
+          "redirections; the history ends in quiescence either by closing all clients or by Stop() with connections open. Oracle (polled "
+          "for up to 5 s at quiescence): downstream cx_active == 0 and cx_total == cx_destroy_total (TCP: upstream alike); downstream and "
+          "upstream rq_total == rq_success_total + rq_failure_total; per Redis command total == success + error; cx_restricted == number "
+          "of accepted connections that were closed without service; no cx_active gauge above 2^62 at any sampling point. Non-trivial: "
+          "the history includes a redirection, a backend failure, a limit rejection, or a Stop with >= 1 open connection. Distinct by "
+          "canonical JSON."),
+    assumptions=["a connection that is accepted and closed without service while a limit is configured counts as a limit rejection (the proxy notices client closes asynchronously)",
+                 "the Redis processor keeps no upstream connection counters; only its request counters are checked upstream"],
+    parts=[
+        dict(name="stats", test="TestStats", kind="rapid", checks={"quick": 80, "thorough": 5000}, shards=16, timeout={"quick": 900, "thorough": 3400}, shrinktime="60s", gomaxprocs=4, crash_is_violation=True),
+    ],
+)
